@@ -39,8 +39,8 @@ StepMonFull(m0, n, e) ==
   ELSE MonPerturb(m0, KindName[k], e[2], prio2, K)
 StepMon(m0, n, e) ==
   LET f == StepMonFull(m0, n, e) IN
-  IF Clause = "wait" THEN [f EXCEPT !.cnt = TLCEval(Zero(NG))]
-  ELSE IF Clause = "prop" THEN [f EXCEPT !.wait = TLCEval(Zero(NG)), !.pert = TLCEval(Zero(NG))]
+  IF Clause = "wait" THEN [f EXCEPT !.cnt = TLCEval(Zero(NG)), !.hi = 0]
+  ELSE IF Clause = "prop" THEN [f EXCEPT !.wait = TLCEval(Zero(NG)), !.pert = TLCEval(Zero(NG)), !.mx = TLCEval(Zero(NG)), !.lo = TLCEval(Zero(NG))]
   ELSE f
 
 SelValid(n, e) == e[1] # 1 \/ (IF Active(G[n].p) = {} THEN e[4] = 0 ELSE e[4] \in Active(G[n].p))
@@ -53,7 +53,7 @@ SigOf(n, e, m2) ==
   ELSE IF ~PropOk(m2, prio2) THEN "C17:proportion"
   ELSE ""
 
-MonitorInit == node = 1 /\ gmon = MonInit(NG) /\ lastIn = [k |-> "init", m |-> 0, a |-> 0, out |-> 0, sig |-> ""] /\ ok = TRUE
+MonitorInit == node = 1 /\ gmon = [MonInit(NG) EXCEPT !.hi = MaxPrio(G[1].p), !.mx = G[1].p, !.lo = G[1].p] /\ lastIn = [k |-> "init", m |-> 0, a |-> 0, out |-> 0, sig |-> ""] /\ ok = TRUE
 MonitorNext ==
   /\ ok
   /\ \E j \in 1..Len(G[node].succ) :
